@@ -20,7 +20,7 @@ CHECKS = {
  "C08": dict(
    engine="E3-object-pool",
    level=("exploration",
-     "Seeded operation/read histories (8-24 steps) plus fixed 3/4-step schemas (materialise view X, mutate via Y, read Z, mutate again; for all X, Y, Z) on live PosePath3D/PoseTrajectory3D objects built either from pose matrices or from positions+quaternions. After every step every view of every object (each read first on its own deep copy, plus one copy read in a seeded order) is compared with the other views, with a longdouble SE(3) reference model applying the documented geometric effect, with derived quantities recomputed from the model, and with evo's own check(). Sampling, not proof; no fault dimension (DESIGN 4.4 says why).",
+     "Seeded operation/read histories (8-24 steps) plus fixed 3/4-step schemas (materialise view X, mutate via Y, read Z, mutate again; for all X, Y, Z) on live PosePath3D/PoseTrajectory3D objects built either from pose matrices or from positions+quaternions. After every step every view of every object (each read first on its own deep copy, plus one copy read in a seeded order) is compared with the other views, with a longdouble SE(3) reference model applying the documented geometric effect, with derived quantities recomputed from the model, and with evo's own check(). A separate narrow family feeds pose matrices of text-file / float32 precision (view counts, evo's own check(), no foreign exception). Sampling, not proof; no fault dimension (DESIGN 4.4 says why).",
      "4.4"),
    note="Trusted: the reference model (closed-form longdouble group operations), tolerances 1e-9 relative, copy.deepcopy as a state-preserving probe. transform() is fed SE(3) only; selection ops are checked as order-preserving subsequences; empty trajectories are only asked for their count.",
    technique="deterministic simulation (history search, no fault dimension): seeded operation/read histories on live objects vs. an executable reference model, with replay and minimisation"),
@@ -29,7 +29,7 @@ CHECKS = {
    level=("exploration",
      "Same machine as C08 with a deriver/computation-heavy mix: derive by deepcopy / associate / split_* / merge / DataFrame, TUM, KITTI round trips, mutate either the derived object or the parent by every mutator, and run APE/RPE, ape()/rpe(), pair selection, time matching, Umeyama, writers, result merging and plots with pool objects as arguments. After every step every object that was not the receiver must be bit-for-bit equal to its previous probe and every object must still equal its own model. Sampling, not proof.",
      "4.4"),
-   note="Trusted: as C08. ape()/rpe() only in their argument-preserving configurations (with alignment/projection options they process their arguments in place by design); split_* returning [self] and merge_results of one result are recorded as aliases.",
+   note="Trusted: as C08. ape()/rpe() only in their argument-preserving configurations (with alignment/projection options they process their arguments in place by design); merge_results of one result is recorded as an alias (a split_* part or a merged trajectory that IS an argument is a violation).",
    technique="deterministic simulation (history search, no fault dimension): seeded derive-mutate-inspect histories over a pool of aliased objects, bitwise snapshots + per-object reference models"),
  "C17": dict(
    engine="E2-sandbox-io",
@@ -41,7 +41,7 @@ CHECKS = {
  "C18": dict(
    engine="E1-simfs-vproc",
    level=("exploration",
-     "Seeded histories of 5-40 evo_config / -c operations, each executed as its own virtual process (the real import-time initialise/upgrade code runs before every operation) on a simulated disk, compared after every operation with a dict model transcribed from the property text: key set, types (bool stays bool, list stays list, numeric tokens become numbers), only named keys change, subset reset, upgrade adds missing keys only, union merge hard/soft, locked SETTINGS, -c priority and per-run override, and generate/-c equivalence destination by destination for argument lists drawn from the real parsers' typed options (ints, negative numbers, multi-value). Sampling, not proof.",
+     "Seeded histories of 5-40 evo_config / -c operations, each executed as its own virtual process (the real import-time initialise/upgrade code runs before every operation) on a simulated disk, compared after every operation with a dict model transcribed from the property text: key set, types (bool stays bool, list stays list, numeric tokens become numbers), only named keys change, subset reset, upgrade adds missing keys only, union merge hard/soft, locked SETTINGS, -c priority and per-run override, and generate/-c equivalence destination by destination for argument lists drawn from the real parsers' typed options (ints, negative numbers, multi-value). 'Overrides matching package settings for that run' is decided behaviourally: whole evo_res / evo_traj / evo_ape / evo_rpe runs (entry-point order, real run(), tables and PNG plots on the simulated disk) with a -c config must give byte-identical outputs to the same run with the overridden values stored. Sampling, not proof.",
      "4.2"),
    note="Trusted: the dict model (transcribed rules), SimFS, argparse. Documented grammar only: options before key/value groups, values never spell a key, valid pygments_style/console_logging_format, no nan/inf tokens, string-typed CLI options never get numeric-looking values.",
    technique="deterministic simulation: histories of evo_config processes on an in-memory disk vs. an executable reference model (dirty restart = process exit)"),
